@@ -297,7 +297,7 @@ ADDENDA = {
             "technique": "translator tie for full_modulus.py (interpreter of translated statements = model)"},
     "C06": {"text": "the pressure-range guard is translated from QHACalculator.desired_pressure_status into an expression value (field, column, reduction, comparison, exception) and the model's range check is proved equal to its meaning for every table and grid (pressure_guard_is_source; accept <=> in range restated for the translated guard); loading sequence read_input -> refine_grid -> guard translated (adapter_load_order_is_source).",
             "technique": "translator tie for the range guard (GuardExpr evaluator = model)"},
-    "C07": {"text": "the glue of Calculator / CijVolumeBaseInterface is translated as data (tools/gens/calc_src.py): assembly indices, compliance labelling, REGEX_CIJ and the __getattr__ dispatch, __init__ order, class-level state, in-place operations; assembly / labelling / name lookup models are proved to be the evaluation of that data for all key lists and names (calc_glue_is_source_*), label (i,j) is the (i,j) entry of the inverse whatever the key order, no shared state and no in-place writes hence read-order freedom on the generated read graph.",
+    "C07": {"text": "the glue of Calculator / CijVolumeBaseInterface is translated as data (tools/gens/calc_src.py): assembly indices, compliance labelling, REGEX_CIJ and the __getattr__ dispatch, __init__ order, class-level state, in-place operations; assembly / labelling / name lookup models are proved to be the evaluation of that data for all key lists and names (calc_glue_is_source_*), label (i,j) is the (i,j) entry of the inverse whatever the key order, no shared state and no in-place writes hence read-order freedom on the generated read graph; Python's attribute lookup order modelled (getattrOf) and the precondition of __getattr__ discharged: no name of the REGEX_CIJ language is defined on either interface, so getattr(volume_base, name) IS the translated dispatch (calc_glue_getattr_*; hypothesis: names contributed by `object` are dunder names, checked on the real objects).",
             "technique": "translator tie for the calculator glue + order-freedom via the memo-history theorems"},
     "C11": {"text": "pchip and akima are no longer a contract parameter: scipy's PchipInterpolator/Akima1DInterpolator slope rules and PPoly evaluation are modelled (CijModel/PPoly.lean, constants read from the installed scipy source); proved: node values, nu=1 is the derivative of nu=0 everywhere and nu=2 of nu=1 off interior nodes, C1 at nodes, PCHIP slope box and Fritsch-Carlson monotonicity, power-law exactness, (exp s, -s', -s'') consistency without contract; bit-for-bit correspondence with scipy; dispatch/constructor/extrapolate wiring of interpolate_mode_ppoly translated (ppoly_glue_is_source). every function of mode_gamma.py re-translated as statements/expression trees (tools/gens/modegamma_src.py): interpolateMode for every method and interpolateModes = interpretation of the translated code for all inputs, any exp/log pair, any kernels (mode_glue_src_*: one independent fit per mode from that mode's series only; vander in decreasing powers with order+1 columns; spline on the grid in the order given with k=order and no s/w); inventory complete; the diagnostic plot and the `cij modes` command translated (plot_select_is_source, plot_command_wiring_is_source). PARTIAL now only: FITPACK spline.",
             "technique": "piecewise-cubic Hermite model of scipy's pchip/akima with HasDerivAt proofs; bit-for-bit scipy correspondence"},
